@@ -98,6 +98,29 @@ func buildC08(tier string, seed int64) *Family {
 			}
 		}
 	}
+	// unparenthesised chains: the value depends on left associativity and on * div mod
+	// binding tighter than + -
+	chainOps := []string{"+", "-", "*", "div"}
+	for _, o1 := range chainOps {
+		for _, o2 := range chainOps {
+			add("9001 " + o1 + " 9002 " + o2 + " 9003")
+		}
+	}
+	for _, t := range []string{"count(*) - count(//a) - 1", "8 div count(*) div 2", "number(a) - 1 - 1", "9001 - 9002 + 9003 - 9004", "9001 div 9002 * 9003 div 9004", "-9001 - -9002 - 9003",
+		"2 * 3 div 4 * 5", "1 - 2 - 3 - 4", "64 div 2 div 2 div 2"} {
+		add(t)
+	}
+	for _, t := range []string{"100 * 7 mod 3", "9005 * 2 mod 7", "7 mod 4 mod 2", "17 mod 9006 mod 2"} {
+		insts = append(insts, c08Inst(t, cfg, map[string]string{"h5": "int:0:60", "h6": "int:1:9"}))
+	}
+	// lexical forms of numbers in the document (XPath Number: digits with an optional
+	// fraction, either part may be missing; an optional minus; surrounding whitespace)
+	lexCfg := docCfg{N: 3, A: 1, Names: "a,b", Pool: ".5,-.5,5., 1 ,+1,1e1,0x1,--1,1.5.,.,-,1 2"}
+	for _, t := range []string{"number(a)", "number(@a)", "a + 0", "-a", "number(*) * 2", "floor(a)", "string(number(a))", "a div 1", "number(.)", "count(*[. > 0])"} {
+		in := c08Inst(t, lexCfg, nil)
+		in.ID += " lexical"
+		insts = append(insts, in)
+	}
 	add(".5 + 9001")
 	add(".25 * 4")
 	add("9001 - .125")
@@ -112,7 +135,7 @@ func buildC08(tier string, seed int64) *Family {
 		insts = append(insts, c08Inst(t, cfg, modHoles))
 	}
 	// sum over numeric nodes
-	for _, t := range []string{"sum(*)", "sum(a)", "sum(@*)", "sum(//a)", "sum(a | @a)", "sum(*) + 9001", "sum(a/a)", "sum(*[. > 0])", "floor(sum(*))", "sum(*) div count(*)", "sum(//@a) * 2"} {
+	for _, t := range []string{"sum(*)", "sum(a)", "sum(@*)", "sum(//a)", "sum(a | @a)", "sum(*) + 9001", "sum(a/a)", "sum(*[. > 0])", "floor(sum(*))", "sum(*) div count(*)", "sum(//@a) * 2", "sum(*) div count(*) div 2", "sum(*) - sum(a) - 1"} {
 		insts = append(insts, c08Inst(t, numCfg, nil))
 	}
 	// string() of numbers: NaN and integers below 10^6
